@@ -39,6 +39,21 @@ theorem indexes_monotone_partial (ttl : Bool) (acts : List Act) (h : CleanRun (S
         (run (Sys.init ttl) acts).lastIdx :=
   ((MInv.init ttl).run (Inv.init ttl) acts h).ord
 
+/-- **events are faithful (partial).** For every well-formed catalog and every write that satisfies
+    the syntactic condition `CleanWrite`, the events `catalog_events.go` / `config_entry_events.go`
+    compute describe exactly what the write does to EVERY query (every topic, every subject):
+    replaying them on the old result yields the new one. The excluded registrations contain the
+    two refuted shapes (`witnessConnectLeak`, `witnessRenameOrder`). -/
+theorem events_faithful_partial {c : Cat} (h : WF c) (idx : Nat) (w : Write) (hw : CleanWrite c w) :
+    ∀ k, ViewEq (query k (applyWrite idx c w).1) (applyEvs (query k c) (evsFor k (applyWrite idx c w).2.1)) :=
+  faithful_of_cleanWrite h idx w hw
+
+/-- `view_ok_partial` with the semantic hypothesis on writes discharged: every condition of
+    `CleanRunS` is a syntactic condition on the schedule prefix. -/
+theorem view_ok_partial_syntactic (ttl : Bool) (acts : List Act) (h : CleanRunS (Sys.init ttl) acts) :
+    ViewOk (run (Sys.init ttl) acts) ∧ Mono (run (Sys.init ttl) acts) :=
+  view_ok_partial ttl acts (h.clean (Inv.init ttl))
+
 /-- **no_change_skipped (partial).** In every clean schedule, what an open subscription can
     still read (its buffer suffix plus the batches still queued for publication) replays, exactly
     update by update, to the current direct-query result: no committed change is skipped. -/
@@ -220,6 +235,27 @@ theorem no_change_skipped_counterexample_restore :
   have h2 : quiescentB (run (Sys.init true) witnessPreRestore) = false := by rfl
   rw [h2] at h1; cases h1
 
+/-- after `FSM.Restore` a LOCAL materializer (which keeps view and index when `Next` fails with
+    `ErrSubForceClosed`) re-subscribes while a second, closed but not yet unsubscribed subscription
+    keeps the topic buffer alive: `Subscribe` sees `HasEventIndex(req.Index)` and resumes it on
+    the view of the discarded history. (The RPC materializer resets on `Aborted`.) -/
+def witnessLocalResume : List Act :=
+  [.client 1 (hkey "web") "t1" false, .client 2 (hkey "web") "t1" true,
+   .commit 2 (.reg "n1" 1 (some (svc "n1" "s1" "web" 80 .typical))), .publishOne,
+   .subscribe 1, .subscribe 2, .next 1, .next 1,
+   .commit 3 (.reg "n1" 1 (some (svc "n1" "s1" "web" 81 .typical))), .publishOne, .next 1,
+   .restore (applyWrite 2 Cat.empty (.reg "n1" 1 (some (svc "n1" "s1" "web" 80 .typical)))).1,
+   .next 1, .unsub 1, .subscribe 1]
+
+/-- "forced to resubscribe rather than left with a stale view" is false for the local
+    materializer: the re-subscription is resumed, the view stays the pre-restore one. -/
+theorem forced_resubscribe_counterexample_local_resume :
+    ∃ acts, ¬ Quiescent (run (Sys.init false) acts) := by
+  refine ⟨witnessLocalResume, fun h => ?_⟩
+  have h1 := quiescentB_of_quiescent h
+  have h2 : quiescentB (run (Sys.init false) witnessLocalResume) = false := by rfl
+  rw [h2] at h1; cases h1
+
 /-! ## Non-vacuity: the hypotheses are satisfiable by schedules that deliver events -/
 
 /-- a clean schedule: two subscribers (named and wildcard subject), snapshot, streamed update -/
@@ -239,6 +275,33 @@ theorem cleanRun_nonvacuous : CleanRun (Sys.init true) witnessClean := by
 /-- … and it ends with both materializers updated to index 3 (so `ViewOk` says something) -/
 theorem cleanRun_delivers :
     (run (Sys.init true) witnessClean).clients.map (fun c => c.m.index) = [3, 3] := by rfl
+
+/-- a clean schedule on the health and connect topics: first registration of a node with a
+    connect-native instance, snapshot, a port change, a deregistration -/
+def witnessCleanSvc : List Act :=
+  [.client 1 (hkey "web") "t1" true, .client 2 (ckey "web") "t2" false,
+   .commit 2 (.reg "n1" 1 (some (svc "n1" "s1" "web" 80 .native))), .publishOne,
+   .subscribe 1, .subscribe 2, .next 1, .next 1, .next 2, .next 2,
+   .commit 3 (.reg "n1" 1 (some (svc "n1" "s1" "web" 81 .native))), .publishOne, .next 1, .next 2,
+   .commit 4 (.dereg "n1" (some "s1")), .publishOne, .next 1, .next 2]
+
+theorem cleanRunS_nonvacuous : CleanRunS (Sys.init true) witnessCleanSvc := by
+  refine ⟨trivial, trivial, ⟨by decide, ?_⟩, trivial, ?_, ?_, trivial, trivial, trivial, trivial,
+    ⟨by decide, ?_⟩, trivial, trivial, trivial, ⟨by decide, trivial⟩, trivial, trivial, trivial, trivial⟩
+  · exact ⟨rfl, Or.inr ⟨by decide, by rfl⟩⟩
+  · show CleanSub _ 1; decide
+  · show CleanSub _ 2; decide
+  · refine ⟨rfl, Or.inl ⟨by rfl, ?_, ?_⟩⟩
+    · rintro ⟨b, hb, -, -, hs⟩
+      exact hs rfl
+    · intro b d hb hk
+      have : findSvc (run (Sys.init true) (witnessCleanSvc.take 10)).cat "n1" "s1" = some (svc "n1" "s1" "web" 80 .native) := by rfl
+      have hb' : some b = some (svc "n1" "s1" "web" 80 .native) := hb.symm.trans this
+      cases hb'
+      cases hk
+
+theorem cleanRunS_delivers :
+    (run (Sys.init true) witnessCleanSvc).clients.map (fun c => (c.m.index, c.m.view)) = [(4, []), (4, [])] := by rfl
 
 /-- the known-finding window with config entries: two commits queued, subscribe, publish. Without
     the guard the delivered indexes decrease; with the guard the hypotheses of
